@@ -362,6 +362,7 @@ def run_impl(ck, harness, reqs):
     out = [None] * len(reqs)
     start = 0
     restarts = 0
+    retries = 0
     while start < len(reqs):
         text = "".join("%s %s\n" % (o, hx(s)) for o, s in reqs[start:])
         p = ck.run([harness], input=text, timeout=1500, env={"ASAN_OPTIONS": "detect_leaks=1:symbolize=1"})
@@ -383,7 +384,15 @@ def run_impl(ck, harness, reqs):
         if "HANG" in lines[k:k + 1]:
             out[start + k] = "HANG"
         else:
+            sanit = "Sanitizer" in p.stderr or "runtime error" in p.stderr
+            if not sanit and p.returncode >= 0 and retries < 3:
+                # ended without a sanitizer report or a signal (start failure on an overloaded machine):
+                # not a verdict about the request, run it again
+                retries += 1
+                start = start + k
+                continue
             out[start + k] = "CRASH rc=%d %s" % (p.returncode, p.stderr[:1800])
+        retries = 0
         start = start + k + 1
         restarts += 1
         if restarts > 40:
